@@ -163,7 +163,7 @@ def run(ctx):
     _run(ctx)
     # renumbering is an editing operation too: the structural rules of C10 are part of "editing keeps the document sound"
     import prop_c10
-    prop_c10.run(ctx)
+    prop_c10.run(ctx, dangling_clause=False)   # "a reference that resolved to nothing still resolves to nothing" is C10's clause, not C11's
 
 
 def id_rules(ctx, F):
